@@ -2,6 +2,7 @@ import OdakProofs.Lemmas.Mat3
 import OdakProofs.Lemmas.GenGeometry
 import OdakProofs.Lemmas.GenSamplers
 import OdakProofs.Lemmas.GenRayCreate
+import OdakProofs.Lemmas.GenSamplersMore
 import OdakProofs.Props.C13
 import OdakModel.Rays
 import Mathlib.Analysis.SpecialFunctions.Trigonometric.Inverse
@@ -542,5 +543,123 @@ theorem C14_gen_intersection_is_not_the_meeting_point :
   refine ⟨hmeet, ?_, hpt, hd, hs, ?_⟩
   · apply Vec3.ext' <;> simp [r0, Vec3.add_def, Vec3.add, Vec3.smul]
   · rw [findNearestPointsN_eq_of_degenerate r0 r1 hs, hpt]
+
+end Odak
+
+/-! ## The loop-built generators of `odak/tools/sample.py` REGENERATED from the Python source (`Generated/SamplersMore.lean`, translator
+  `harness/translate/samplers_more.py`, tied to `OdakModel/SamplesMore.lean` by `Lemmas/GenSamplersMore.lean`): `circular_uniform_sample`,
+  `circular_uniform_random_sample` (the NumPy variates are inputs), `random_sample_point_cloud` (the drawn index list is an input),
+  `batch_of_rays`.  The generated definitions are the returned rows IN ORDER, as lists. -/
+namespace Odak
+open Odak.Gen
+
+/-- generated `circular_uniform_sample`: the regenerated list is the model list - ring by ring, `⌊no1 · i / no0⌋` points on ring `i` at
+    radius `i / no0 · radius`, placed by `rotate_points(angles, offset = center)` - and every returned row is the placement of a point
+    of the disc of the requested radius in the plane z = 0 (on the circle of radius `i / no0 · radius` for some ring `i < no0`) -/
+theorem C14_gen_circular_uniform_in_disc (no0 no1 : Nat) (radius : ℝ) (center angles : Vec3 ℝ) (z : Bool) (hr : 0 ≤ radius) :
+    circularUniformSampleN no0 no1 radius center angles z = circularUniformSample no0 no1 radius center angles z ∧
+    ∀ q ∈ circularUniformSampleN no0 no1 radius center angles z, ∃ p : Vec3 ℝ, ∃ i, i < no0 ∧
+      Vec3.normSq p = ((i : ℝ) / (no0 : ℝ) * radius) ^ 2 ∧ Vec3.normSq p ≤ radius ^ 2 ∧ p.z = 0 ∧
+      q = placeSample angles center p z := by
+  refine ⟨circularUniformSampleN_eq .., fun q hq => ?_⟩
+  rw [circularUniformSampleN_eq, circularUniformSample, List.mem_map] at hq
+  obtain ⟨p, hp, rfl⟩ := hq
+  obtain ⟨i, hi, j, _, rfl⟩ := (mem_circularUniformLocal ..).mp hp
+  obtain ⟨h1, h2, h3⟩ := ringPoint_spec no0 no1 radius hr i j hi
+  exact ⟨_, i, hi, h1, h2, h3, rfl⟩
+
+/-- generated `circular_uniform_sample`: HOW MANY points.  Not `no0 · no1` and not `no1`: the sum over the rings `i = 0 … no0 - 1` of
+    `⌊no1 · i / no0⌋` (ring 0, the centre, holds none); `no1 (no0 - 1) / 2` when `no0` divides `no1`; 225 for the default `no = [10, 50]`;
+    NO point at all for `no0 = 1` -/
+theorem C14_gen_circular_uniform_count (no0 no1 : Nat) (radius : ℝ) (center angles : Vec3 ℝ) (z : Bool) :
+    (circularUniformSampleN no0 no1 radius center angles z).length = ((List.range no0).map fun i => no1 * i / no0).sum ∧
+    (circularUniformSampleN 10 50 radius center angles z).length = 225 ∧
+    (circularUniformSampleN 1 no1 radius center angles z).length = 0 := by
+  have h : ∀ a b, (circularUniformSampleN a b radius center angles z).length = ((List.range a).map fun i => b * i / a).sum := by
+    intro a b
+    rw [circularUniformSampleN_eq, circularUniformSample, List.length_map, length_circularUniformLocal]
+  refine ⟨h _ _, by rw [h]; decide, by rw [h]; simp⟩
+
+/-- generated `circular_uniform_random_sample`: exactly `no0 · no1` rows (every radius with every angle, radii in the outer loop), and for
+    variates of the first draw inside the bounds the REGENERATED call gives (`np.random.uniform(0, 1, no[0])`) every row is the placement
+    of a point of the disc of the requested radius in the plane z = 0 -/
+theorem C14_gen_circular_uniform_random_in_disc (no0 no1 : Nat) (radius : ℝ) (center angles : Vec3 ℝ) (z : Bool) (U V : Nat → ℝ)
+    (hr : 0 ≤ radius)
+    (hU : ∀ a, a < no0 → ∀ b ∈ (circularUniformRandomSampleNDrawBounds (α := ℝ))[0]?, b.1 ≤ U a ∧ U a ≤ b.2) :
+    circularUniformRandomSampleN no0 no1 radius center angles z U V =
+      circularUniformRandomSample no0 no1 radius center angles z U V ∧
+    (circularUniformRandomSampleN no0 no1 radius center angles z U V).length = no0 * no1 ∧
+    ∀ q ∈ circularUniformRandomSampleN no0 no1 radius center angles z U V, ∃ p : Vec3 ℝ,
+      Vec3.normSq p ≤ radius ^ 2 ∧ p.z = 0 ∧ q = placeSample angles center p z := by
+  refine ⟨circularUniformRandomSampleN_eq .., ?_, fun q hq => ?_⟩
+  · rw [circularUniformRandomSampleN_eq, circularUniformRandomSample, List.length_map, length_circularUniformRandomLocal]
+  · rw [circularUniformRandomSampleN_eq, circularUniformRandomSample, List.mem_map] at hq
+    obtain ⟨p, hp, rfl⟩ := hq
+    obtain ⟨a, ha, b, _, rfl⟩ := (mem_circularUniformRandomLocal ..).mp hp
+    obtain ⟨h1, h2⟩ := polarPoint_spec (radius * Real.sqrt (U a)) (V b)
+    refine ⟨_, ?_, h2, rfl⟩
+    rw [h1]
+    have hb := hU a ha ((Num.ofNat 0 : ℝ), (Num.ofNat 1 : ℝ)) (by simp [circularUniformRandomSampleNDrawBounds])
+    simp only [num_ofNat, Nat.cast_zero, Nat.cast_one] at hb
+    have hs0 : 0 ≤ Real.sqrt (U a) := Real.sqrt_nonneg _
+    have hs1 : Real.sqrt (U a) ≤ 1 := by
+      rw [show (1 : ℝ) = Real.sqrt 1 by simp]; exact Real.sqrt_le_sqrt hb.2
+    have : radius * Real.sqrt (U a) ≤ radius := by nlinarith
+    have h0 : 0 ≤ radius * Real.sqrt (U a) := by positivity
+    nlinarith
+
+/-- [regenerated draws of `circular_uniform_random_sample`] the radii come from `sqrt` of `no[0]` uniform variates on `[0, 1]`, the angles
+    are `no[1]` uniform variates on `[0, 2π]`, drawn in this order -/
+theorem C14_gen_circular_uniform_random_draws (no0 no1 : Nat) :
+    (circularUniformRandomSampleNDrawBounds : List (ℝ × ℝ)) = [(0, 1), (0, 2 * Real.pi)] ∧
+    circularUniformRandomSampleNDrawSizes no0 no1 = [no0, no1] := by
+  refine ⟨?_, rfl⟩
+  simp only [circularUniformRandomSampleNDrawBounds, num_ofNat, num_pi, Nat.cast_zero, Nat.cast_one, Nat.cast_ofNat]
+
+/-- generated `random_sample_point_cloud`: given the index list `np.random.choice` returned (`size = no` indices below `a =
+    point_cloud.shape[0]`, by the regenerated call) the result has exactly `no` rows, row `t` is row `choice[t]` of the cloud, and every
+    returned row is a row of the cloud -/
+theorem C14_gen_random_sample_point_cloud (n no : Nat) (cloud : Nat → Vec3 ℝ) (choice : List Nat) (hlen : choice.length = no)
+    (hrange : ∀ k ∈ choice, k < n) :
+    (randomSamplePointCloudN n cloud no choice).length = no ∧
+    (∀ t (ht : t < choice.length), (randomSamplePointCloudN n cloud no choice)[t]? = some (cloud choice[t])) ∧
+    ∀ x ∈ randomSamplePointCloudN n cloud no choice, ∃ k, k < n ∧ x = cloud k := by
+  rw [randomSamplePointCloudN_eq]
+  refine ⟨by rw [List.length_map, hlen], fun t ht => by simp [ht], fun x hx => ?_⟩
+  obtain ⟨k, hk, rfl⟩ := List.mem_map.mp hx
+  exact ⟨k, hrange k hk, rfl⟩
+
+/-- [regenerated `np.random.choice` call] `point_cloud.shape[0]` is the population, `no` the size - and the probability list `p` is handed
+    over in the position of `replace`, not as `p` (it acts as a truth value: the drawn rows are rows of the cloud either way) -/
+theorem C14_gen_point_cloud_choice_call :
+    randomSamplePointCloudNChoiceCall = [("a", "point_cloud.shape[0]"), ("size", "no"), ("replace", "p")] := by decide
+
+/-- generated `batch_of_rays` on its documented domain (`m = n` entry / exit points, or a single point on either side): the regenerated
+    list is the model list; it holds `max m n` rays; ray `i` starts at entry point `i` (the single entry point when `m = 1`), has unit
+    direction cosines and reaches exit point `i` (the single exit point when `n = 1`) after the distance between the two - one ray per
+    index, entry first, in the order of the rows -/
+theorem C14_gen_batch_of_rays (m n : Nat) (entry exit_ : Nat → Vec3 ℝ) (hm : 1 ≤ m) (hn : 1 ≤ n) (h : m = n ∨ m = 1 ∨ n = 1) :
+    batchOfRaysN m entry n exit_ = batchOfRays m entry n exit_ ∧
+    (batchOfRaysN m entry n exit_).length = max m n ∧
+    ∀ i, i < max m n → ∃ r : Ray ℝ, (batchOfRaysN m entry n exit_)[i]? = some r ∧ r.o = entry (bcastRow m i) ∧
+      (entry (bcastRow m i) ≠ exit_ (bcastRow n i) →
+        Vec3.normSq r.d = 1 ∧
+        r.o + Vec3.smul (Vec3.norm (exit_ (bcastRow n i) - entry (bcastRow m i))) r.d = exit_ (bcastRow n i)) := by
+  refine ⟨batchOfRaysN_eq m n entry exit_ hm hn h, ?_, fun i hi => ?_⟩
+  · rw [batchOfRaysN_eq m n entry exit_ hm hn h, batchOfRays, List.length_map, List.length_range]
+  · rw [batchOfRaysN_eq m n entry exit_ hm hn h, batchOfRays]
+    exact ⟨⟨entry (bcastRow m i), rayDirTwoPoints (entry (bcastRow m i)) (exit_ (bcastRow n i))⟩, by simp [hi], rfl,
+      fun hne => C14_two_points _ _ hne⟩
+
+/-- outside the documented domain nothing is rejected: with `1 < n < m` exit points the shorter side is `np.repeat`ed ELEMENT-WISE, so every one
+    of the `m` rays ends at exit point 0 -/
+theorem C14_gen_batch_of_rays_unequal_counts (m n : Nat) (entry exit_ : Nat → Vec3 ℝ) (hn : n < m) (i : Nat) (hi : i < m) :
+    (batchOfRaysN m entry n exit_)[i]? = some (twoPointsN (entry i) (exit_ 0)) := by
+  have hmax : max m n = m := by omega
+  simp only [batchOfRaysN, pyRange_zero, flatMap_single, hmax, hn, if_true]
+  simp [hi, Nat.div_eq_of_lt hi]
+
+/-- non-vacuity of the count: `no = [4, 6]` gives rings of 0, 1, 3, 4 points -/
+example : ((List.range 4).map fun i => 6 * i / 4) = [0, 1, 3, 4] := by decide
 
 end Odak
